@@ -669,7 +669,8 @@ impl Formattable for &InterpolatedString {
                     formatter.push(s);
                 }
                 InterpolatedStringItem::IdentifierPath(path) => {
-                    formatter.push('{').push(&path.data).push('}');
+                    // (there may be a comment in front of the path)
+                    formatter.push('{').fmt(path).push('}');
                 }
             }
         }
@@ -765,12 +766,15 @@ impl Formattable for &Vec<ArgItem<Identifier>> {
 impl Formattable for &Vec<ArgItem<SpecificImportArg>> {
     fn format(&self, formatter: &mut CodeFormatter) {
         for (path, comma) in *self {
-            formatter
-                .fmt(&path.data.path)
-                .spc_if_next()
-                .fmt(&path.data.as_)
-                .fmt(comma)
-                .spc_if_next();
+            // (the comments in front of an argument are kept with the argument as a whole)
+            if let Some(t) = path.trivia.as_ref() {
+                formatter.fmt(&t.data);
+            }
+            formatter.fmt(&path.data.path);
+            if path.data.as_.is_some() {
+                formatter.spc_if_next().fmt(&path.data.as_);
+            }
+            formatter.fmt(comma).spc_if_next();
         }
         formatter.clear_spc_if_next();
     }
